@@ -123,6 +123,11 @@ func (c *MiscreantCipher) Unmarshal(value string, s interface{}) error {
 	if err != nil {
 		return err
 	}
+	// only the canonical encoding of a sealed value is accepted: the decoder
+	// ignores line breaks and the unused trailing bits of the last character
+	if base64.RawURLEncoding.EncodeToString(ciphertext) != value {
+		return fmt.Errorf("invalid encoding")
+	}
 
 	// decrypt the bytes
 	plaintext, err := c.Decrypt(ciphertext)
